@@ -16,5 +16,6 @@ theorem body_WithFilter : Tea.Gen.fact_body_WithFilter = Tea.Doc.fact_body_WithF
 theorem sends : Tea.Gen.fact_sends = Tea.Doc.fact_sends := rfl
 theorem body_Program_handleSignals : Tea.Gen.fact_body_Program_handleSignals = Tea.Doc.fact_body_Program_handleSignals := rfl
 theorem body_Program_Send : Tea.Gen.fact_body_Program_Send = Tea.Doc.fact_body_Program_Send := rfl
+theorem body_NewProgram : Tea.Gen.fact_body_NewProgram = Tea.Doc.fact_body_NewProgram := rfl
 
 end Tea.Props.Bridge.C16
